@@ -108,6 +108,9 @@ func fieldArith(p *load.Prog, r *report.Report, m *elemModel, prop string) {
 				return args
 			}, func(res *absint.PathResult) {
 				got, why := res.It.ReadMont(FP, m.limbCell(res.It.InputRoots()[0]))
+				if got != nil {
+					got = sp(res, got)
+				}
 				want := sp(res, op.want(val[pt.u], val[pt.v]))
 				r.Check(why == "" && got.Equal(want), prop+".wrapper", construct, p.Pos(fn.Pos()), "receiver = "+op.want(val[pt.u], val[pt.v]).String(), fmt.Sprintf("receiver is %v (%s), expected %s", got, why, want))
 				// operands other than the receiver keep their value
@@ -132,6 +135,9 @@ func chainExponent(p *load.Prog, r *report.Report, m *elemModel, prop, construct
 		return args
 	}, func(res *absint.PathResult) {
 		got, why := res.It.ReadMont(f, outCell())
+		if got != nil {
+			got = sp(res, got)
+		}
 		wantP := sp(res, alpha.Pow(want))
 		detail := ""
 		if why == "" && !got.Equal(wantP) {
